@@ -1,6 +1,6 @@
 (* C16 — property theorems (statements only; proofs live in Proofs*.v). *)
 From Coq Require Import ZArith QArith Qabs List Bool.
-Require Import QV.C16.Model QV.C16.Spec QV.C16.Proofs QV.C16.Proofs2 QV.C16.Proofs3 QV.C16.Proofs4 QV.C16.Proofs5 QV.C16.Proofs_term QV.C16.Proofs6 QV.C16.Proofs_fuel QV.C16.Proofs7 QV.C16.Proofs8 QV.C16.Proofs9 QV.C16.Gen_tabor QV.C16.GenEq.
+Require Import QV.C16.Model QV.C16.Spec QV.C16.Proofs QV.C16.Proofs2 QV.C16.Proofs3 QV.C16.Proofs4 QV.C16.Proofs5 QV.C16.Proofs_term QV.C16.Proofs6 QV.C16.Proofs_fuel QV.C16.Proofs7 QV.C16.Proofs8 QV.C16.Proofs9 QV.C16.Gen_tabor QV.C16.GenEq QV.C16.Gen_loop QV.C16.GenEqLoop.
 Import ListNotations.
 Open Scope Z_scope.
 
@@ -334,3 +334,30 @@ Theorem C16_source_init_tests : forall ff pf c tbl prog,
   compile_with ff pf c tbl prog = compile_with_gen ff pf c tbl prog.
 Proof. exact gen_compile_with_eq. Qed.
 Print Assumptions C16_source_init_tests.
+
+(* ... and qupulse/program/loop.py: one iteration of Loop.flatten_and_balance (for every level, prefix, work list, and
+   for the recursive call) and Loop._has_single_child_that_can_be_merged, with all decisions taken from Gen_loop.v *)
+Theorem C16_source_can_merge_test : forall l,
+  can_merge l = if merge_obs gen_has_single_child_that_can_be_merged_t1 l
+                then merge_obs gen_has_single_child_that_can_be_merged_t2 l
+                else merge_obs gen_has_single_child_that_can_be_merged_t3 l.
+Proof. exact gen_can_merge_eq. Qed.
+Print Assumptions C16_source_can_merge_test.
+
+Theorem C16_source_flatten_and_balance_tests : forall f d done todo,
+  fab (S f) d done todo =
+  if negb (fab_obs gen_flatten_and_balance_t1 d done todo) then Ok (rev done)
+  else
+    let sub := hd dummy_l todo in let rest := tl todo in
+    if fab_obs gen_flatten_and_balance_t2 d done todo then fab f d done (encapsulate sub :: rest)
+    else if fab_obs gen_flatten_and_balance_t3 d done todo then
+      match fab f (d - 1) [] (l_ch sub) with
+      | Ok ch' => fab f d done (set_ch sub ch' :: rest)
+      | Err e => Err e
+      end
+    else if fab_obs gen_flatten_and_balance_t4 d done todo then fab f d (sub :: done) rest
+    else if fab_obs gen_flatten_and_balance_t5 d done todo then fab f d done (merge_child sub :: rest)
+    else if fab_obs gen_flatten_and_balance_t6 d done todo then fab f d done (unroll sub ++ rest)
+    else fab f d (sub :: done) rest.
+Proof. exact gen_fab_eq. Qed.
+Print Assumptions C16_source_flatten_and_balance_tests.
